@@ -170,7 +170,7 @@ pub(crate) fn heap_sort_into_pinned_vec""",
         None,
         None,
         ["C12"],
-        "(filled in below)",
+        "ParFilterMapFilter::filter_map passes Params::default() on",
     ),
     "c13_no_set_len_pinned": (
         "src/core/map_fil_col.rs",
@@ -212,8 +212,8 @@ pub fn par_map_fil_col_vec""",
         "src/core/runner_settings/chunk_size.rs",
         "                Ordering::Greater => div_ceil(len, max_num_threads),",
         "                Ordering::Greater => len / max_num_threads,",
-        ["C15"],
-        "Min(c) with c*threads > len and len < threads resolves to chunk size 0",
+        [],
+        "min_chunk_size rounds down instead of up: turned out to be equivalent for the properties (max_num_threads <= len, so the quotient is >= 1; only the chunk size changes) - the checks must stay silent",
     ),
     "c07_colx_drops_empty_run": (
         "src/core/map_fil_col_x.rs",
